@@ -20,7 +20,13 @@ for p in props:
     if not os.path.exists(path):
         na.append(dict(property_id=pid, reason="not yet covered: the Lean model and correspondence for this area are not built in this revision (see DESIGN.md section 5 for the plan)"))
         continue
-    c = importlib.import_module(f"harness.props.{pid}").CHECK
+    try:
+        c = importlib.import_module(f"harness.props.{pid}").CHECK
+        _ = (c.level_text, c.level_note, c.technique, c.design_ref, c.pkg)
+    except Exception as ex:
+        print(f"{pid}: check module not loadable yet ({type(ex).__name__}: {ex})", file=sys.stderr)
+        na.append(dict(property_id=pid, reason="not yet covered: the check for this property is still being built in this revision"))
+        continue
     if getattr(c, "not_applicable", None):
         na.append(dict(property_id=pid, reason=c.not_applicable))
         continue
@@ -30,17 +36,17 @@ for p in props:
         thorough_cmd=f"./check {pid} --tier thorough",
         evidence_file=f"evidence/{pid}.json",
         replay_cmd_template=f"./check {pid} --replay {{path}}",
-        engine=c.exe or "lean",
+        engine="lean/" + c.pkg,
         level_claimed=dict(category="proof", text=c.level_text, design_ref=c.design_ref),
         level_note=c.level_note,
         technique=c.technique,
     ))
-    e = engines.setdefault(c.exe or "lean", dict(name=c.exe or "lean", path=f"lean/HioModel ({c.props_mod})", serves_properties=[], kind_free_text="Lean 4 model + theorems, compiled model driver for the differential correspondence run"))
+    e = engines.setdefault(c.pkg, dict(name="lean/" + c.pkg, path=f"lean/{c.pkg}", serves_properties=[], kind_free_text="Lean 4 model + theorems, compiled model driver for the differential correspondence run"))
     e["serves_properties"].append(pid)
 
 m = dict(
     version=1,
-    setup_cmd="cd lean && lake build",
+    setup_cmd="./tools/build_all.sh",
     hooks=dict(guard="IOFLO_HIO_VERIF", enable="no hooks: every adapter observes through public API, harness-side subclasses and scripted fake sockets; checks run /repo/src via PYTHONPATH",
                baseline_off_cmd="cd /repo && /venv/bin/python -m pytest -ra -q -p no:cacheprovider --timeout=900 --continue-on-collection-errors",
                source_commits=[], add_only=True),
